@@ -68,6 +68,9 @@ def cases(draw):
                 {"mayShrinkRegionsWhilePrinting": True}, {"g90e": True}, {"g90e": False},
                 {"enteringExcludedRegionGcode": "M117 in"}, {"exitingExcludedRegionGcode": "M117 out\nM400"},
                 {"extendedExcludeGcodes": [{"gcode": "M117", "mode": "first", "description": ""}, {"gcode": "M106", "mode": "merge", "description": ""}]},
+                {"extendedExcludeGcodes": []}, {"extendedExcludeGcodes": [{"gcode": "G4", "mode": "exclude", "description": ""}]},
+                {"atCommandActions": []}, {"enteringExcludedRegionGcode": None}, {"exitingExcludedRegionGcode": ""},
+                {"atCommandActions": [{"command": "ExcludeRegion", "parameterPattern": "^off", "action": "disable_exclusion", "description": ""}]},
             ]))])
     if regions and draw(st.integers(0, 2)) == 0:
         # an aborted print by construction: deferred codes configured, tool inside a region, a few state-changing commands,
@@ -89,6 +92,23 @@ def cases(draw):
     prog = list(base["prog"])
     if draw(st.integers(0, 2)) == 0 and len(prog) > 1 and prog[1] == ["g", "G1 X1 Y1 Z0.2 F3000"]:
         prog[1] = ["g", "G1 X1 Y1 Z0.2"]      # no feed rate given before the first exit: exposes a stale one
+    if regions and len(prog) > 2 and draw(st.integers(0, 3)) == 0:
+        # the previous print (exclusion switched off) ended on the very commands this print begins with: anything remembered
+        # about those points must not survive PRINT_STARTED.  The program then skips its positioning move.
+        first = [it for it in prog[2:6] if it[0] == "g" and it[1].startswith(("G0 ", "G1 ")) and " X" in it[1] and " Y" in it[1]][:1]
+        if first and prog[2] != ["g", "G20"]:
+            tx, ty = rnd.target("in", draw(st.integers(0, 3)), draw(st.integers(0, 100)), draw(st.integers(0, 100)))
+            into = ["g", "G1 X%s Y%s" % (gen.fmt(tx), gen.fmt(ty))]
+            if draw(st.booleans()):
+                prog = prog[:1] + [into] + prog[2:]
+                first = [into]
+            else:
+                prog = prog[:1] + prog[2:]
+            if not any(h == ["event", "PRINT_STARTED"] for h in hist):
+                hist += [["event", "PRINT_STARTED"], ["g", "G28"]]
+            hist += [["g", "G90"], ["g", "G21"], ["at", "ExcludeRegion", draw(st.sampled_from(["off", "off", "on"]))], first[0]]
+            if draw(st.booleans()):
+                hist.append(["event", draw(st.sampled_from(["PRINT_DONE", "PRINT_CANCELLED", "PRINT_FAILED"]))])
     if draw(st.integers(0, 5)) == 0:
         prog = prog[1:]          # un-homed program
     if draw(st.integers(0, 2)) == 0:
@@ -147,12 +167,7 @@ def run_case(case, strict=False):  # pylint: disable=unused-argument
     if a.plugin.isActivePrintJob:
         cl.add("history_ends_mid_print")
     # plugin B: fresh, same settings, same regions
-    b = Harness.__new__(Harness)
-    Harness.__init__(b, cfg)
-    b.values.clear()
-    b.values.update(copy.deepcopy(a.values))
-    b.g90e = a.g90e
-    b.event("SETTINGS_UPDATED")
+    b = Harness(cfg, values=a.values, g90e=a.g90e)       # initialised with A's current settings: it never saw any others
     for reg in a.state.excludedRegions:
         b.state.addRegion(copy.deepcopy(reg))
     out = []
